@@ -382,6 +382,32 @@ def run(repo: Repo, rep: Report, tier: str) -> None:
     from .shared import mst_colour_keys
     mst_colour_keys(repo, rep, "C10-R8")
 
+    # ---------------- R9 ---------------------------------------------------------------
+    rep.rule("C10-R9", "folding a single-condition decider with constant operands yields `output constant if comparison else 0`; the default output 1 is used only when the "
+             "output value is not a constant (never for a constant 0)")
+    from .util import canon as _canon9, cguards as _cguards9
+    cpo = repo.func("ConstantPropagationOptimizer.optimize")
+    c9 = _canon9(cpo)
+    folds = []
+    for n in walk_local(cpo.node):
+        if isinstance(n, ast.Assign) and isinstance(n.targets[0], ast.Attribute) and n.targets[0].attr == "value":
+            cn = c9.node(n.value)
+            if isinstance(cn, ast.IfExp) and "_fold_comparison(" in norm(cn.test):
+                folds.append((n, cn))
+    rep.floor("C10-R9", "decider folding sites", len(folds), 1)
+    for n, cn in folds:
+        OUT = None
+        import re as _re9
+        m9 = _re9.search(r"self\._fold_comparison\((.+)\.test_op, self\._get_const_value\(\1\.left, (.+?)\), self\._get_const_value\(\1\.right, \2\)\)", norm(cn.test))
+        ok = m9 is not None and isinstance(cn.orelse, ast.Constant) and cn.orelse.value == 0
+        detail = norm(cn)[:160]
+        if ok:
+            OUT = f"self._get_const_value({m9.group(1)}.output_value, {m9.group(2)})"
+            bt = norm(cn.body)
+            ok = bt in (OUT, f"1 if {OUT} is None else {OUT}", f"{OUT} if {OUT} is not None else 1")
+            detail = "output = const(output_value), 1 only if that is None; value = output if cmp else 0" if ok else detail
+        rep.check(ok, "C10-R9", "a folded decider keeps `output_value if cmp else 0`", detail if ok else f"folded value `{detail}`: an output constant of 0 (or the comparison result) is not preserved", cpo.loc(n))
+
     # ---------------- R7 ---------------------------------------------------------------
     rep.rule("C10-R7", "common-subexpression elimination merges only IRArith/IRDecider nodes and keeps the first occurrence")
     for k in optimizers:
